@@ -683,10 +683,10 @@ func checkNotification(c *core.Ctx, rule string, lib []*ssa.Function) {
 	c.Check(okDisc && badDisc == "", rule, "DefaultHandler.Run", "connection error ⇒ disconnect event before Run returns", run.Pos(), "errors.Is(err, ErrConnClosed) ⇒ Trigger(EventDisconnect)", "no disconnect notification: "+badDisc)
 	// StopWithError call sites: tabled
 	allowed := map[string]string{
-		"serve/serve$2":     "acceptor: the connection-serve goroutine reports a read error (wrapped with ErrConnClosed); Run does not depend on this goroutine",
-		"Serve/Serve$1$1":   "initiator: deferred report of the read error by the connection-serve goroutine",
-		"Serve/Serve$4$2":   "initiator: local close while the handler is still running",
-		"Serve/Serve$6":     "initiator: after all goroutines have ended (the drainer is running)",
+		"serve/serve$2":   "acceptor: the connection-serve goroutine reports a read error (wrapped with ErrConnClosed); Run does not depend on this goroutine",
+		"Serve/Serve$1$1": "initiator: deferred report of the read error by the connection-serve goroutine",
+		"Serve/Serve$4$2": "initiator: local close while the handler is still running",
+		"Serve/Serve$6":   "initiator: after all goroutines have ended (the drainer is running)",
 	}
 	for _, fn := range lib {
 		an.AllInstrs(fn, func(in ssa.Instruction) {
